@@ -12,7 +12,9 @@ THEOREMS = ["C07_referral_strictly_deeper", "C07_auth_answer_from_universe", "C0
             "C07_simple_cache_get_after_insert_all", "C07_example_depth0", "C07_example_depth1",
             "C07_correct_chain", "C07_correct_chain_real_cache", "C07_chain_cache_laws", "C07_example_depth3",
             "C07_empty_cache_consistent", "C07_correct_warm", "C07_correct_warm_real_cache", "C07_warm_cache_laws",
-            "C07_example_warm", "C07_sequence", "C07_sequence_outcomes", "C07_example_sequence"]
+            "C07_example_warm", "C07_sequence", "C07_sequence_outcomes", "C07_example_sequence",
+            "C07_correct_alias", "C07_correct_alias_real_cache", "C07_filter_accepts_alias_answer", "C07_alias_sequence",
+            "C07_example_alias"]
 RULE = ("cases: generated consistent universes (root + a chain of 1..5 nested zones, optional provider branch for "
         "out-of-bailiwick nameserver names, optional second branch for cross-zone aliases; 1..3 nameservers per zone, "
         "in-bailiwick / sibling / out-of-bailiwick names, glue present or absent, v4-only / v6-only / dual addresses; alias "
